@@ -110,6 +110,7 @@ def prove(pid: str):
             for mm in re.finditer(r"'(\S+)' (depends on axioms: \[([^\]]*)\]|does not depend on any axioms)", out.replace("\n ", " ").replace("\n", " ")):
                 axs = {a.strip() for a in (mm.group(3) or "").split(",") if a.strip()}
                 found[mm.group(1)] = axs
+            res["axioms_used"] = sorted({a for axs in found.values() for a in axs})
             hashes = dict(re.findall(r"TYPEHASH (\S+) (\d+)", out))
             res["typehashes"] = hashes
             for t in thms:
@@ -194,6 +195,7 @@ def finish(run: Run, prove_res, level_note=""):
             "checker_cmd": "lake build <registered modules> && lake env lean .cache/Audit_%s.lean  (#print axioms per theorem)" % run.pid,
             "trusted_base": TRUSTED_BASE,
             "theorem_failures": prove_res["failed"],
+            "axioms_used_by_the_audited_theorems": prove_res.get("axioms_used", []),
             "modules": prove_res.get("modules", []),
             "translator": prove_res.get("translator_msg", ""),
             "evaluations": run.evaluations, "distinct_nontrivial": len(run.keys),
